@@ -62,7 +62,7 @@ void *vp_old_ptr(const void *cur_ptr); /* address inside a registered block -> s
  * by the harness; "old" values come from shadow copies of the registered blocks (see vp_spec.h) */
 #include <stdlib.h>
 #include <string.h>
-#define VP_NREG 6
+#define VP_NREG 10
 typedef unsigned long long vp_w64;
 static void *vp_reg_hdr[VP_NREG];
 static vp_w64 *vp_reg_blk[VP_NREG];
